@@ -151,4 +151,57 @@ def good (required : List Nat) (d : Abs) : Bool := required.all (fun a => d.cont
 
 end Fresh
 
+/-! ## 4. trace membership: can the skeleton produce an observed sequence of assignments?
+
+Used by the correspondence of C02/C03: the real code is run with attribute assignment traced; the
+ordered events (hyper-parameter assigned, attribute assigned, attribute deleted) must be a sequence
+the regenerated skeleton can emit.  The matcher is again an instance of the generic interpreter:
+abstract state = the set of positions of the observed sequence reached so far. -/
+namespace Trace
+
+inductive Ev where
+  | P (k : Nat)      -- self.<hyper-parameter k> assigned (write or restore)
+  | A (a : Nat)      -- self.<attribute a> assigned
+  | D (a : Nat)      -- del self.<attribute a>
+deriving DecidableEq, Repr
+
+/-- the event an atom emits when executed (the others are silent) -/
+def evOf : Act → Option Ev
+  | .write k => some (.P k)
+  | .restore k _ => some (.P k)
+  | .wattr a _ => some (.A a)
+  | .dattr a => some (.D a)
+  | _ => none
+
+/-- concrete state: `some i` = the events emitted so far are exactly the first `i` observed ones;
+`none` = the execution emitted something else -/
+abbrev St := Option Nat
+
+def sem (evs : List Ev) : Sem Act St where
+  step a _ s := match evOf a, s with
+    | none, s => s
+    | some _, none => none
+    | some e, some i => if evs[i]? = some e then some (i + 1) else none
+  test _ n _ := n % 2 = 1
+
+/-- abstract state: positions of `evs` that may have been reached -/
+abbrev Abs := List Nat
+
+def dom (evs : List Ev) : Dom Act Abs where
+  join a b := a ++ b.filter (fun i => !a.contains i)
+  le a b := a.all (fun i => b.contains i)
+  transfer x d := match evOf x with
+    | none => d
+    | some e => (d.filter (fun i => evs[i]? = some e)).map (· + 1)
+  check _ _ := true
+  fuel := evs.length + 2
+
+/-- some execution of `p` may emit exactly `evs` (and the loop heads stabilised) -/
+def accepts (p : Prog Act) (evs : List Ev) : Bool :=
+  let r := analyze (dom evs) p [0]
+  r.ok && ((r.norm.getD []).contains evs.length || (r.exc.getD []).contains evs.length ||
+           (r.ret.getD []).contains evs.length || (r.brk.getD []).contains evs.length)
+
+end Trace
+
 end MlVerif.Lifecycle
